@@ -80,6 +80,11 @@ func (a ArgVal) key() string {
 	switch a.Kind {
 	case "A":
 		return fmt.Sprintf("A%d", a.X)
+	case "C":
+		if a.N == nil {
+			return "C-"
+		}
+		return fmt.Sprintf("C%d", *a.N)
 	case "B":
 		if a.N == nil {
 			return fmt.Sprintf("B%q-", a.S)
